@@ -47,6 +47,13 @@ def scenarios(tier, seed=0):
             for ck in (("maize.2",) if tier == "quick" else ("maize.2", "cotton.2", "potato.2")):
                 c = A._b(crop=ck, word=word, win="w2", soil="SandyLoam", iwc="Pct50", cropopt=opt)
                 yield {"kind": "config", "config": c}
+    # (b3) extreme records on simulated days (reference ET below the 0.1 mm floor of the file reader, frost, a tropical night, a storm):
+    # a per-day "sanity" adjustment may not be written back into the stored records
+    for off in (False, True):
+        for irr in ("none", "smt"):
+            c = A._b(crop="maize.2", word="normal", win="w2", soil="SandyLoam", off=off, irr=irr)
+            c["dev"] = [[1, "Z"], [6, "Z"], [7, "L"], [11, "F"], [15, "T"], [18, "S"], [370, "Z"], [376, "F"]]
+            yield {"kind": "config", "config": c}
     # (c) thermal crops re-derive their calendar from the weather matrix at every season start; deep-rooted crops deepen the profile
     names = ["MaizeGDD", "AlfalfaGDD", "WheatGDD"] if tier == "quick" else A.thermal_crop_names()
     for name in names:
